@@ -15,6 +15,13 @@ mod verif_kani_flows {
         kani::assume(k < 3);
         if k == 0 { FlowEntry::Unknown } else { FlowEntry::Known(IpAddr::V4(Ipv4Addr::new(10, 0, 0, k))) }
     }
+    /// a flow of exactly `len` symbolic entries (concrete lengths keep CBMC's Vec reasoning tractable)
+    fn flow_n(len: usize) -> Flow {
+        let mut entries = Vec::with_capacity(len);
+        let mut i = 0;
+        while i < len { entries.push(any_entry()); i += 1; }
+        Flow { entries }
+    }
     fn any_flow() -> Flow {
         let len: usize = kani::any();
         kani::assume(len <= N);
@@ -55,7 +62,7 @@ mod verif_kani_flows {
 
     //@harness k_flow_check_contract mode=bounded bound="flows of <= 2 entries over 2 addresses + unknown" timeout=900
     #[kani::proof]
-    #[kani::unwind(4)]
+    #[kani::unwind(8)]
     fn k_flow_check_contract() {
         let a = any_flow();
         let b = any_flow();
@@ -65,67 +72,75 @@ mod verif_kani_flows {
         if !c { assert!((r == CheckStatus::MatchMerge) == adds(&a, &b)); }
     }
 
-    //@harness k_flow_merge_contract mode=bounded bound="flows of <= 2 entries over 2 addresses + unknown" timeout=900
-    #[kani::proof]
-    #[kani::unwind(4)]
-    fn k_flow_merge_contract() {
-        let a = any_flow();
-        let b = any_flow();
+    fn merge_contract(la: usize, lb: usize) {
+        let a = flow_n(la);
+        let b = flow_n(lb);
         kani::assume(!conflict(&a, &b));
         let mut m = a.clone();
         m.merge(&b);
-        assert!(m.entries.len() == if a.entries.len() >= b.entries.len() { a.entries.len() } else { b.entries.len() });
+        assert!(m.entries.len() == if la >= lb { la } else { lb });
         assert!(extends(&a, &m));     // never forgets / contradicts what was recorded
         assert!(extends(&b, &m));     // agrees position by position with every address seen in the round
         assert!(!conflict(&m, &b));
     }
-
-    //@harness k_flow_from_hops_contract mode=bounded bound="<= 2 hops" timeout=900
+    //@harness k_flow_merge_2_1 mode=bounded bound="recorded flow of 2 entries, seen flow of 1 entry (2 addresses + unknown)" timeout=900
     #[kani::proof]
-    #[kani::unwind(4)]
+    #[kani::unwind(8)]
+    fn k_flow_merge_2_1() { merge_contract(2, 1); }
+    //@harness k_flow_merge_1_2 mode=bounded bound="recorded flow of 1 entry, seen flow of 2 entries" timeout=900
+    #[kani::proof]
+    #[kani::unwind(8)]
+    fn k_flow_merge_1_2() { merge_contract(1, 2); }
+    //@harness k_flow_merge_2_2 mode=bounded bound="recorded and seen flows of 2 entries" timeout=900
+    #[kani::proof]
+    #[kani::unwind(8)]
+    fn k_flow_merge_2_2() { merge_contract(2, 2); }
+
+    //@harness k_flow_from_hops_contract mode=bounded bound="exactly 2 hops (2 addresses + unknown)" timeout=900
+    #[kani::proof]
+    #[kani::unwind(8)]
     fn k_flow_from_hops_contract() {
-        let f = any_flow();
-        let hops: Vec<Option<IpAddr>> = f.entries.iter().map(|e| match e { FlowEntry::Known(a) => Some(*a), FlowEntry::Unknown => None }).collect();
-        let g = Flow::from_hops(hops);
+        let f = flow_n(2);
+        let h = |e: FlowEntry| match e { FlowEntry::Known(a) => Some(a), FlowEntry::Unknown => None };
+        let g = Flow::from_hops([h(f.entries[0]), h(f.entries[1])]);
         assert!(g == f);              // position i <-> hops[i], known <-> Some
     }
 
-    //@harness k_registry_register_contract mode=bounded bound="registry of <= 1 flow of <= 2 entries, one further registration" timeout=1800
-    #[kani::proof]
-    #[kani::unwind(4)]
-    fn k_registry_register_contract() {
+    fn register_contract(l0: usize, l1: usize) {
         let mut reg = FlowRegistry::new();
-        let n: usize = kani::any();
-        kani::assume(n <= 1);
-        let mut i = 0;
-        while i < n { let _ = reg.register(any_flow()); i += 1; }
-        // ids are issued densely from 1
-        let mut k = 0;
-        while k < reg.flows().len() { assert!(reg.flows()[k].1 == FlowId(k as u64 + 1)); k += 1; }
-        assert!(reg.next_flow_id == FlowId(reg.flows().len() as u64 + 1));
-        let before: Vec<(Flow, FlowId)> = reg.flows().to_vec();
-        let f = any_flow();
+        let f0 = flow_n(l0);
+        let id0 = reg.register(f0.clone());
+        assert!(id0 == FlowId(1) && reg.flows().len() == 1 && reg.next_flow_id == FlowId(2));   // ids are issued densely from 1
+        let f = flow_n(l1);
         let id = reg.register(f.clone());
-        // first non-contradicting flow wins, otherwise a new id is issued
-        let mut first: Option<usize> = None;
-        let mut k = 0;
-        while k < before.len() { if first.is_none() && !conflict(&before[k].0, &f) { first = Some(k); } k += 1; }
-        match first {
-            Some(j) => {
-                assert!(id == before[j].1);
-                assert!(reg.flows().len() == before.len());
-                assert!(extends(&before[j].0, &reg.flows()[j].0) && extends(&f, &reg.flows()[j].0));
-                let mut k = 0;
-                while k < before.len() { if k != j { assert!(reg.flows()[k] == before[k]); } k += 1; }
-            }
-            None => {
-                assert!(id == FlowId(before.len() as u64 + 1));
-                assert!(reg.flows().len() == before.len() + 1);
-                assert!(reg.flows()[before.len()].0 == f);
-                let mut k = 0;
-                while k < before.len() { assert!(reg.flows()[k] == before[k]); k += 1; }
-            }
+        if !conflict(&f0, &f) {
+            // the first non-contradicting flow wins; it is only ever extended
+            assert!(id == FlowId(1) && reg.flows().len() == 1 && reg.next_flow_id == FlowId(2));
+            assert!(extends(&f0, &reg.flows()[0].0) && extends(&f, &reg.flows()[0].0));
+            assert!(reg.flows()[0].1 == FlowId(1));
+        } else {
+            assert!(id == FlowId(2) && reg.flows().len() == 2 && reg.next_flow_id == FlowId(3));
+            assert!(reg.flows()[0] == (f0, FlowId(1)) && reg.flows()[1] == (f, FlowId(2)));
         }
-        assert!(reg.next_flow_id == FlowId(reg.flows().len() as u64 + 1));
+    }
+    //@harness k_registry_register_2_1 mode=bounded bound="one registered flow of 2 entries, then a flow of 1 entry" timeout=1200
+    #[kani::proof]
+    #[kani::unwind(8)]
+    fn k_registry_register_2_1() { register_contract(2, 1); }
+    //@harness k_registry_register_2_2 mode=bounded bound="one registered flow of 2 entries, then a flow of 2 entries" timeout=1200
+    #[kani::proof]
+    #[kani::unwind(8)]
+    fn k_registry_register_2_2() { register_contract(2, 2); }
+
+    //@harness k_registry_contains_match_contract mode=bounded bound="one registered flow of 2 entries, query flow of 2 entries" timeout=900
+    #[kani::proof]
+    #[kani::unwind(8)]
+    fn k_registry_contains_match_contract() {
+        let mut reg = FlowRegistry::new();
+        assert!(!reg.contains_match(&flow_n(1)));
+        let f0 = flow_n(2);
+        let _ = reg.register(f0.clone());
+        let f = flow_n(2);
+        assert!(reg.contains_match(&f) == !conflict(&f0, &f));
     }
 }
